@@ -155,7 +155,7 @@ class Run:
         for o in failed:
             hit = None
             for k in known.get("findings", []):
-                if k.get("property") not in (self.prop, "*"):
+                if self.prop not in k.get("properties", [k.get("property")]) and k.get("property") != "*":
                     continue
                 if k.get("obligation") != o.name:
                     continue
@@ -190,18 +190,25 @@ class Run:
                 demos = witness.run_finding_demos(demo_ids, self.repo)
             except Exception as e:
                 demos = {i: (None, "demo error %r" % (e,)) for i in demo_ids}
+            seen_ids = set()
             for k in known.get("findings", []):
+                if k.get("id") in demos and k.get("id") in seen_ids:
+                    k["_printed"] = True
+                    continue
                 if k.get("id") in demos:
+                    seen_ids.add(k["id"])
                     rep, text = demos[k["id"]]
                     if rep:
                         print("KNOWN-FINDING: property=%s %s: %s [%s]" % (self.prop, k["id"], k.get("what", ""), text))
                         self.known_demo.append({"id": k["id"], "what": k.get("what"), "reproduced": text})
+                        k["_printed"] = True
                     elif rep is False:
                         print("NOTE known finding %s no longer reproduces on this tree" % k["id"])
                     else:
                         print("NOTE known finding %s: %s" % (k["id"], text))
         for o, k in known_hits:
-            print("KNOWN-FINDING: property=%s %s (%s)" % (self.prop, k.get("what", ""), o.name))
+            if not k.get("_printed"):
+                print("KNOWN-FINDING: property=%s %s (%s)" % (self.prop, k.get("what", ""), o.name))
         for o in violations:
             path = os.path.join(REPLAYS, "%s-%s.json" % (self.prop, slug(o.name)))
             rec = {
